@@ -260,8 +260,14 @@ int main(void)
 				vbi_page *ref = calloc(1, sizeof *ref);
 				int i, ok;
 				st_pause = 1;
-				ok = vbi_fetch_vt_page(dec, ref, (vbi_pgno) a, (vbi_subno) b, lv[c & 3], 1, 0);
+				/* the SAME cached page: with the wildcard sub-page number two look-ups may return different sub-pages
+				   (a look-up of another sub-page of this page number inside the formatter - e.g. the page is its own
+				   POP page - reorders the hash chain), and their X/28 colour maps rightly differ */
+				ok = vbi_fetch_vt_page(dec, ref, pg->pgno, pg->subno, lv[c & 3], 1, 0);
 				st_pause = 0;
+				if (ok && (ref->pgno != pg->pgno || ref->subno != pg->subno)) {
+					vbi_unref_page(ref); ok = 0;
+				}
 				if (ok) {
 					for (i = 0; i < 40; ++i)
 						if (ref->color_map[i] != pg->color_map[i]) {
